@@ -29,7 +29,7 @@ struct DomWorld {
     // register a subtree that both sides created in one go (clone / import / split): parallel pre-order walk
     bool addSubtree(Node* r, DOMNode* x, std::string& why) {
         if (!x) { why = "null node returned"; return false; }
-        add(r, x);
+        add(r, x); if (r->type == refdom::ATTRIBUTE && x->getNodeType() == DOMNode::ATTRIBUTE_NODE) r->idAttr = ((DOMAttr*)x)->isId();      // whether a copy of an ID attribute is an ID attribute is not specified: adopt the answer
         if (r->type == refdom::ELEMENT) { DOMNamedNodeMap* am = x->getAttributes(); if (!am || am->getLength() != r->attrs.size()) { why = "attribute count of new subtree"; return false; } for (auto a : r->attrs) { std::u16string nm = a->name; DOMNode* xa = am->getNamedItem((const XMLCh*)nm.c_str()); if (!xa) { why = "attribute missing in new subtree"; return false; } if (!addSubtree(a, xa, why)) return false; } }
         if (r->type == refdom::ATTRIBUTE) return true;
         DOMNode* c = x->getFirstChild(); for (auto k : r->kids) { if (!c) { why = "child missing in new subtree"; return false; } if (!addSubtree(k, c, why)) return false; c = c->getNextSibling(); }
@@ -90,12 +90,15 @@ struct Checker {
     }
 };
 
+#include "../sim/domviews.hpp"
+
 // ---------------------------------------------------------------------------------------------
 class DomEngine : public Engine {
 public:
     explicit DomEngine(const std::string& p) : prop(p) {}
     std::string property() const override { return prop; }
-    std::string rule() const override { return "one run = a seeded history of DOM Core operations (create*, insertBefore / appendChild / removeChild / replaceChild with operands drawn from ALL live nodes of 1-2 documents and detached subtrees - so forbidden combinations occur naturally -, cloneNode, importNode, adoptNode, attribute set/remove by name and by node, character-data edits with arbitrary offsets, splitText, normalize, setTextContent, release) executed on real xerces-c documents and on the RefDOM reference model; after EVERY step the exception behaviour must agree (a forbidden operation must raise DOMException with an allowed code and leave the tree unchanged) and a parallel walk through public getters must find the real tree structurally consistent and equal to the reference. distinct = plan hash; non-trivial = at least one forbidden operation was attempted and at least one structural mutation succeeded"; }
+    std::string rule() const override { if (prop == "C14") return "one run = a seeded interleaving of tree mutations (the C13 operation set, on 1-2 documents) with the creation, stepping and querying of up to 6 NodeIterators, 6 TreeWalkers (whatToShow masks, accept / skip / reject filters), 6 live getElementsByTagName lists, getElementById lookups with ID attributes, and 5 Ranges (boundary setters with arbitrary nodes and offsets, toString, compareBoundaryPoints, clone / extract / delete contents, insertNode, surroundContents, cloneRange, detach); every view operation is executed on the real object and on its reference model over RefDOM and the answers compared; after EVERY step the boundary points, collapsed flag and common ancestor of all ranges and the current node of all walkers are compared, and the C13 tree comparison runs. distinct = plan hash; non-trivial = at least one view operation was executed after at least one successful tree mutation";
+        return "one run = a seeded history of DOM Core operations (create*, insertBefore / appendChild / removeChild / replaceChild with operands drawn from ALL live nodes of 1-2 documents and detached subtrees - so forbidden combinations occur naturally -, cloneNode, importNode, adoptNode, attribute set/remove by name and by node, character-data edits with arbitrary offsets, splitText, normalize, setTextContent, release) executed on real xerces-c documents and on the RefDOM reference model; after EVERY step the exception behaviour must agree (a forbidden operation must raise DOMException with an allowed code and leave the tree unchanged) and a parallel walk through public getters must find the real tree structurally consistent and equal to the reference. distinct = plan hash; non-trivial = at least one forbidden operation was attempted and at least one structural mutation succeeded"; }
     Json describe() const override {
         Json d = Json::obj(); Json real = Json::arr(); for (auto s : { "DOMDocumentImpl, DOMParentNode, DOMChildNode, DOMNodeImpl, DOMElementImpl/NSImpl, DOMAttrImpl/NSImpl, DOMAttrMapImpl, DOMCharacterDataImpl, DOMTextImpl, DOMCDATASectionImpl, DOMDocumentFragmentImpl, DOMNodeIDMap, DOMStringPool" }) real.push(s);
         Json stub = Json::arr(); stub.push("none (the DOM has no I/O); the reference model RefDOM is the oracle");
@@ -103,13 +106,16 @@ public:
         Json as = Json::arr(); as.push("RefDOM encodes DOM Level 2/3 Core tree semantics; where the specification leaves the exception precedence open the model accepts any of the codes of the violated preconditions; NOT_SUPPORTED_ERR is accepted as a refusal only for importing / adopting Document and DocumentType nodes"); d.set("assumptions", as); return d;
     }
     void globalInit() override { if (!inited) { XMLPlatformUtils::Initialize(XMLUni::fgXercescDefaultLocale, 0, 0, new CachingGlobalMM()); inited = true; } }
-    uint64_t defaultRuns(const std::string& tier) const override { return tier == "quick" ? 60000 : 1500000; }
+    uint64_t defaultRuns(const std::string& tier) const override { if (prop == "C14") return tier == "quick" ? 300000 : 3000000; return tier == "quick" ? 300000 : 4000000; }
 
     Json generate(uint64_t seed, uint64_t index, const std::string& tier) override {
         Rng r = runRng(seed, index, "workload"); Json plan = Json::obj(); plan.set("mode", prop);
         plan.set("docs", 1 + (int)r.below(2));
         int n = tier == "quick" ? r.range(3, 40) : (r.chance(1, 20) ? r.range(100, 800) : r.range(3, 80));
         Json ops = Json::arr();
+        // a prelude that grows a tree of some depth before the interesting part starts (half of the runs; always most of the C14 runs)
+        int grow = r.chance(prop == "C14" ? 4 : 1, prop == "C14" ? 5 : 2) ? r.range(3, 30) : 0;
+        for (int i = 0; i < grow; i++) { Json op = Json::obj(); op.set("k", "grow"); op.set("a", (long long)r.below(1000)); op.set("b", 0); op.set("c", 0); op.set("s", 0); op.set("t", (int)r.below(8)); op.set("n", (int)r.below(14)); op.set("m", (int)r.below(8)); op.set("f", false); ops.push(op); }
         for (int i = 0; i < n; i++) {
             Json op = Json::obj(); unsigned k = (unsigned)r.below(100);
             static const char* kinds[] = { "createElement", "createElementNS", "createText", "createComment", "createCDATA", "createPI", "createFragment", "createAttribute",
@@ -118,7 +124,15 @@ public:
             static const unsigned weight[] = { 8, 3, 7, 2, 2, 2, 3, 3, 14, 9, 6, 6, 3, 2, 2, 5, 2, 3, 2, 2, 2, 2, 2, 2, 2, 2, 2, 2, 4, 3, 2 };
             const size_t NK = sizeof(weight) / sizeof(weight[0]); static_assert(sizeof(kinds) / sizeof(kinds[0]) == sizeof(weight) / sizeof(weight[0]), "kinds/weight");
             unsigned tot = 0; for (unsigned wv : weight) tot += wv; (void)k; unsigned pickv = (unsigned)r.below(tot); size_t ki = 0; for (unsigned acc = 0; ki < NK; ki++) { acc += weight[ki]; if (pickv < acc) break; }
-            op.set("k", kinds[ki]); op.set("a", (long long)r.below(1000)); op.set("b", (long long)r.below(1000)); op.set("c", (long long)r.below(1000)); op.set("s", (int)r.below(11)); op.set("t", (int)r.below(8)); op.set("n", (int)r.below(14)); op.set("m", (int)r.below(8)); op.set("f", r.coin());
+            const char* kind = kinds[ki];
+            if (prop == "C14") {      // the scheduler gives the view tasks about half of the steps
+                static const char* vkinds[] = { "itNew", "itStep", "itDetach", "twNew", "twStep", "liNew", "liItem", "idSet", "idGet", "rgNew", "rgSet", "rgOp" };
+                static const unsigned vweight[] = { 4, 14, 1, 4, 14, 3, 8, 3, 4, 4, 12, 10 };
+                if (i < 4 && r.chance(1, 2)) { static const char* starters[] = { "itNew", "twNew", "liNew", "rgNew" }; kind = starters[r.below(4)]; }
+                else if (r.chance(11, 20)) { unsigned vt = 0; for (unsigned wv : vweight) vt += wv; unsigned pv = (unsigned)r.below(vt); size_t vi = 0; for (unsigned acc = 0; vi < 12; vi++) { acc += vweight[vi]; if (pv < acc) break; } kind = vkinds[vi]; }
+                op.set("chk", r.chance(1, 3));
+            }
+            op.set("k", kind); op.set("a", (long long)r.below(1000)); op.set("b", (long long)r.below(1000)); op.set("c", (long long)r.below(1000)); op.set("s", (int)r.below(11)); op.set("t", (int)r.below(8)); op.set("n", (int)r.below(14)); op.set("m", (int)r.below(8)); op.set("f", r.coin());
             ops.push(op);
         }
         plan.set("ops", ops);
@@ -136,26 +150,33 @@ public:
         DomWorld w; static const XMLCh ls[] = { 'L', 'S', 0 }; DOMImplementation* impl = DOMImplementationRegistry::getDOMImplementation(ls);
         int ndocs = (int)plan.geti("docs", 1);
         for (int d = 0; d < ndocs; d++) { std::u16string rn = U(d ? "root2" : "root"); DOMDocument* xd = impl->createDocument(0, (const XMLCh*)rn.c_str(), 0); w.docs.push_back(xd); Node* rd = w.m.make(refdom::DOCUMENT, nullptr, u"#document"); w.add(rd, xd); Node* re = w.m.make(refdom::ELEMENT, rd, rn); re->parent = rd; rd->kids.push_back(re); w.add(re, xd->getDocumentElement()); }
-        int step = 0; size_t forbidden = 0, mutated = 0;
+        int step = 0; size_t forbidden = 0, mutated = 0, viewOps = 0, viewOpsAfterMutation = 0; bool c14 = prop == "C14";
+        { Views vs(w); views = c14 ? &vs : nullptr;
         for (auto& op : plan.at("ops").a) {
-            step++; g_run.tick(); std::string k = op.gets("k"); std::string err = runOp(w, op, k, forbidden, mutated);
+            step++; g_run.tick(); std::string k = op.gets("k"); std::string err; bool handled = false;
+            if (c14) { size_t before = viewOps; err = vs.run(op, k, handled, forbidden, viewOps); if (viewOps > before && mutated > 0) viewOpsAfterMutation++; }
+            if (!handled) err = runOp(w, op, k, forbidden, mutated);
+            if (getenv("DOMSIM_TRACE")) { std::function<std::string(Node*)> dump = [&](Node* n) { std::string s = "#" + std::to_string(n->id) + ":" + (n->type == refdom::ELEMENT ? n8(n->name) : n->type == refdom::TEXT ? "T" : n->type == refdom::COMMENT ? "C" : n->type == refdom::DOCUMENT ? "DOC" : n->type == refdom::FRAGMENT ? "FRAG" : "t" + std::to_string(n->type)); if (!n->kids.empty()) { s += "["; for (auto kk : n->kids) s += dump(kk) + " "; s += "]"; } return s; }; std::string all; for (auto& s : w.slots) if (!s.dead && !s.r->parent && !s.r->ownerElement && (s.r->type == refdom::DOCUMENT || !s.r->kids.empty())) all += dump(s.r) + "  "; fprintf(stderr, "TREE  %s\n", all.c_str()); }
             if (!err.empty()) { size_t bar = err.find('|'); o.violated = true; o.cls = err.substr(0, bar); o.detail = "step " + std::to_string(step) + " (" + k + "): " + (bar == std::string::npos ? "" : err.substr(bar + 1)); break; }
             Checker ck(w); if (!ck.all()) { o.violated = true; o.cls = ck.cls; o.detail = "after step " + std::to_string(step) + " (" + k + "): " + ck.detail; break; }
+            if (c14) { err = vs.check(op.getb("chk")); if (!err.empty()) { size_t bar = err.find('|'); o.violated = true; o.cls = err.substr(0, bar); o.detail = "after step " + std::to_string(step) + " (" + k + "): " + err.substr(bar + 1); break; } }
         }
-        o.nontrivial = forbidden > 0 && mutated > 0; g_run.probes["forbidden_ops_attempted"] += forbidden; g_run.probes["mutations_done"] += mutated;
+        views = nullptr; }
+        o.nontrivial = c14 ? viewOpsAfterMutation > 0 : (forbidden > 0 && mutated > 0); g_run.probes["forbidden_ops_attempted"] += forbidden; g_run.probes["mutations_done"] += mutated; if (c14) g_run.probes["view_ops"] += viewOps;
         // release everything (documents own their nodes)
         for (auto d : w.docs) d->release();
         return o;
     }
 
 private:
-    std::string prop; bool inited = false;
+    std::string prop; bool inited = false; Views* views = nullptr;
 
     static bool allowedCode(const Verdict& v, int code) { return v.errs.count(code) > 0; }
     // executes one operation on both sides; returns "" or "class|detail"
     std::string runOp(DomWorld& w, const Json& op, const std::string& k, size_t& forbidden, size_t& mutated) {
         Slot* A = w.pick(op.geti("a")); Slot* B = w.pick(op.geti("b")); Slot* C = w.pick(op.geti("c"));
         std::u16string name = U(kNames[op.geti("s") % 11]), text = U(kTexts[op.geti("t") % 8]); int n = (int)op.geti("n"), m = (int)op.geti("m"); bool flag = op.getb("f");
+        if (n == 13 && op.geti("t") >= 6) text = std::u16string(4500, u'L') + text;      // now and then a text longer than the fixed-size scratch buffers some DOM code uses
         DOMDocument* xd = w.docs[(size_t)op.geti("a") % w.docs.size()]; Node* rd = w.slots[w.byX[xd]].r;
         Verdict v; int got = 0; bool threw = false; std::string what;
         static const bool trace = getenv("DOMSIM_TRACE") != nullptr;
@@ -192,7 +213,7 @@ private:
             TRY(if (k == "appendChild") A->x->appendChild(B->x); else A->x->insertBefore(B->x, R ? R->x : nullptr));
             std::string e = outcome(k.c_str()); if (!e.empty() || !v.ok()) return e; w.m.doInsert(A->r, B->r, R ? R->r : nullptr); mutated++; return ""; }
         if (k == "removeChild") { if (!A || !B) return ""; Slot* ch = B; if (!A->r->kids.empty() && flag) ch = &w.slots[w.byR[A->r->kids[(size_t)op.geti("b") % A->r->kids.size()]]]; if (A->r->type == refdom::ATTRIBUTE) return "";
-            if (ch->r->parent != A->r) v.add(refdom::NOT_FOUND_ERR); if (A->r->readOnly) v.add(refdom::NO_MODIFICATION_ALLOWED_ERR); TRY(A->x->removeChild(ch->x)); std::string e = outcome("removeChild"); if (!e.empty() || !v.ok()) return e; refdom::Model::detach(ch->r); mutated++; return ""; }
+            if (ch->r->parent != A->r) v.add(refdom::NOT_FOUND_ERR); if (A->r->readOnly) v.add(refdom::NO_MODIFICATION_ALLOWED_ERR); TRY(A->x->removeChild(ch->x)); std::string e = outcome("removeChild"); if (!e.empty() || !v.ok()) return e; w.m.removeNode(ch->r); mutated++; return ""; }
         if (k == "replaceChild") { if (!A || !B || !C) return ""; Slot* old = C; if (!A->r->kids.empty() && flag) old = &w.slots[w.byR[A->r->kids[(size_t)op.geti("c") % A->r->kids.size()]]]; if (A->r->type == refdom::ATTRIBUTE) return ""; if (old->r == B->r) return "";
             Verdict pre; if (old->r->parent != A->r) pre.add(refdom::NOT_FOUND_ERR); if (A->r->readOnly) pre.add(refdom::NO_MODIFICATION_ALLOWED_ERR); Verdict c2 = w.m.checkInsert(A->r, B->r, nullptr, old->r->parent == A->r ? old->r : nullptr); for (int x : c2.errs) pre.add(x); if (!pre.ok()) { for (int x : c2.refusal) pre.add(x); } else pre.refusal = c2.refusal; v = pre;
             TRY(A->x->replaceChild(B->x, old->x)); std::string e = outcome("replaceChild"); if (!e.empty() || !v.ok()) return e; w.m.replaceChild(A->r, B->r, old->r); mutated++; return ""; }
@@ -204,7 +225,7 @@ private:
             // xerces-c documents that it cannot adopt a node of another document (the node lives in that document's memory pool)
             if (x == nullptr) { if (A->r->doc != rd) { g_run.probe("tolerated_refusal"); return ""; } return "dom:adopt-refused|adoptNode returned null for a node of its own document (type " + std::to_string(A->r->type) + ")"; }
             if (x != A->x) return "dom:adopt-identity|adoptNode returned a different node";
-            if (A->r->type == refdom::ATTRIBUTE && A->r->ownerElement) { auto& av = A->r->ownerElement->attrs; av.erase(std::find(av.begin(), av.end(), A->r)); A->r->ownerElement = nullptr; } refdom::Model::detach(A->r); refdom::Model::setDocRec(A->r, rd); mutated++; return ""; }
+            if (A->r->type == refdom::ATTRIBUTE && A->r->ownerElement) { auto& av = A->r->ownerElement->attrs; av.erase(std::find(av.begin(), av.end(), A->r)); A->r->ownerElement = nullptr; } w.m.removeNode(A->r); refdom::Model::setDocRec(A->r, rd); mutated++; return ""; }
         if (k == "setAttribute") { if (!A || A->r->type != refdom::ELEMENT) return ""; if (!refdom::validName(name)) v.add(refdom::INVALID_CHARACTER_ERR); TRY(((DOMElement*)A->x)->setAttribute((const XMLCh*)name.c_str(), (const XMLCh*)text.c_str())); std::string e = outcome("setAttribute"); if (!e.empty() || !v.ok()) return e;
             Node* a = w.m.findAttr(A->r, name); if (!a) { a = w.m.make(refdom::ATTRIBUTE, A->r->doc, name); a->ownerElement = A->r; A->r->attrs.push_back(a); DOMNode* xa = ((DOMElement*)A->x)->getAttributeNode((const XMLCh*)name.c_str()); if (!xa) return "dom:attr-set|setAttribute did not create an attribute node"; w.add(a, xa); }
             w.m.setAttrValue(a, text); mutated++; return ""; }
@@ -218,19 +239,25 @@ private:
         if (k == "setData" || k == "appendData" || k == "insertData" || k == "deleteData" || k == "replaceData") {
             if (!A || !A->r->isCharData()) return ""; DOMCharacterData* cd = (DOMCharacterData*)A->x; size_t len = A->r->value.size(); size_t off = (size_t)n, cnt = (size_t)m;
             if (A->r->parent && A->r->parent->type == refdom::ATTRIBUTE) return "";
-            if (k == "setData") { TRY(cd->setData((const XMLCh*)text.c_str())); std::string e = outcome("setData"); if (!e.empty()) return e; A->r->value = text; }
-            else if (k == "appendData") { TRY(cd->appendData((const XMLCh*)text.c_str())); std::string e = outcome("appendData"); if (!e.empty()) return e; A->r->value += text; }
+            if (k == "setData") { TRY(cd->setData((const XMLCh*)text.c_str())); std::string e = outcome("setData"); if (!e.empty()) return e; w.m.replaceData(A->r, 0, len, text); }
+            else if (k == "appendData") { TRY(cd->appendData((const XMLCh*)text.c_str())); std::string e = outcome("appendData"); if (!e.empty()) return e; w.m.replaceData(A->r, len, 0, text); }
             else { if (off > len) v.add(refdom::INDEX_SIZE_ERR);
-                if (k == "insertData") { TRY(cd->insertData(off, (const XMLCh*)text.c_str())); std::string e = outcome("insertData"); if (!e.empty() || !v.ok()) return e; A->r->value.insert(off, text); }
-                else if (k == "deleteData") { TRY(cd->deleteData(off, cnt)); std::string e = outcome("deleteData"); if (!e.empty() || !v.ok()) return e; A->r->value.erase(off, std::min(cnt, len - off)); }
-                else { TRY(cd->replaceData(off, cnt, (const XMLCh*)text.c_str())); std::string e = outcome("replaceData"); if (!e.empty() || !v.ok()) return e; A->r->value.replace(off, std::min(cnt, len - off), text); } }
+                if (k == "insertData") { TRY(cd->insertData(off, (const XMLCh*)text.c_str())); std::string e = outcome("insertData"); if (!e.empty() || !v.ok()) return e; w.m.replaceData(A->r, off, 0, text); }
+                else if (k == "deleteData") { TRY(cd->deleteData(off, cnt)); std::string e = outcome("deleteData"); if (!e.empty() || !v.ok()) return e; w.m.replaceData(A->r, off, cnt, u""); }
+                else { TRY(cd->replaceData(off, cnt, (const XMLCh*)text.c_str())); std::string e = outcome("replaceData"); if (!e.empty() || !v.ok()) return e; w.m.replaceData(A->r, off, cnt, u""); w.m.replaceData(A->r, off, 0, text); } }      // replaceData = deleteData, then insertData
             mutated++; return ""; }
         if (k == "splitText") { if (!A || (A->r->type != refdom::TEXT && A->r->type != refdom::CDATA)) return ""; if (A->r->parent && A->r->parent->type == refdom::ATTRIBUTE) return ""; size_t off = (size_t)n; if (off > A->r->value.size()) v.add(refdom::INDEX_SIZE_ERR); DOMNode* x = nullptr;
-            TRY(x = ((DOMText*)A->x)->splitText(off)); std::string e = outcome("splitText"); if (!e.empty() || !v.ok()) return e; Node* r = w.m.make(A->r->type, A->r->doc, A->r->name, A->r->value.substr(off)); A->r->value.resize(off); if (A->r->parent) { Node* ref = A->r->next(); w.m.doInsert(A->r->parent, r, ref); } w.add(r, x); mutated++; return ""; }
-        if (k == "normalize") { if (!A) return ""; if (A->r->type == refdom::ATTRIBUTE) return ""; TRY(A->x->normalize()); std::string e = outcome("normalize"); if (!e.empty()) return e; w.m.merged.clear(); w.m.normalize(A->r); for (auto g : w.m.merged) w.kill(g); mutated++; return ""; }
+            TRY(x = ((DOMText*)A->x)->splitText(off)); std::string e = outcome("splitText"); if (!e.empty() || !v.ok()) return e; Node* r = w.m.splitText(A->r, off); w.add(r, x); mutated++; return ""; }
+        if (k == "normalize") { if (!A) return ""; if (A->r->type == refdom::ATTRIBUTE) return ""; TRY(A->x->normalize()); std::string e = outcome("normalize"); if (!e.empty()) return e; w.m.merged.clear(); w.m.normalize(A->r); mutated++; return ""; }      // the Text nodes that normalize() takes out of the tree are not released: they stay live, detached
         if (k == "setTextContent") { if (!A) return ""; int t = A->r->type; if (t == refdom::DOCUMENT || t == refdom::DOCUMENT_TYPE || t == refdom::ATTRIBUTE || t == refdom::ENTITY_REFERENCE) return ""; TRY(A->x->setTextContent((const XMLCh*)text.c_str())); std::string e = outcome("setTextContent"); if (!e.empty()) return e;
-            if (A->r->isCharData() || t == refdom::PI) A->r->value = text; else { for (auto kid : A->r->kids) { kid->parent = nullptr; w.kill(kid); } A->r->kids.clear(); if (!text.empty()) { Node* tn = w.m.make(refdom::TEXT, A->r->doc, u"#text", text); tn->parent = A->r; A->r->kids.push_back(tn); if (!A->x->getFirstChild()) return "dom:text-content|setTextContent with a non-empty string left no child"; w.add(tn, A->x->getFirstChild()); } }
+            if (A->r->isCharData() || t == refdom::PI) w.m.replaceData(A->r, 0, A->r->value.size(), text); else { while (!A->r->kids.empty()) w.m.removeNode(A->r->kids[0]);      // the former children stay live, detached
+                if (!text.empty()) { Node* tn = w.m.make(refdom::TEXT, A->r->doc, u"#text", text); w.m.insertAt(A->r, tn, 0); if (!A->x->getFirstChild()) return "dom:text-content|setTextContent with a non-empty string left no child"; Slot* keep = A; (void)keep; DOMNode* fc = A->x->getFirstChild(); w.add(tn, fc); } }
             mutated++; return ""; }
+        if (k == "grow") {      // tree builder used at the start of a run: append a new element / text / comment to an element (A if it is one, else the document element)
+            Node* pr = (A && A->r->type == refdom::ELEMENT) ? A->r : nullptr; if (!pr) { for (auto kid : rd->kids) if (kid->type == refdom::ELEMENT) pr = kid; } if (!pr) return "";
+            DOMNode* px = w.xOf(pr); Node* prd = pr->doc; DOMDocument* pxd = (DOMDocument*)w.xOf(prd); int kind = n % 6; static const char* en[] = { "a", "b", "c", "d" }; std::u16string en16 = U(en[m % 4]); DOMNode* x = nullptr; Node* r = nullptr;
+            if (kind <= 2) { x = pxd->createElement((const XMLCh*)en16.c_str()); r = w.m.make(refdom::ELEMENT, prd, en16); } else if (kind <= 4) { x = pxd->createTextNode((const XMLCh*)text.c_str()); r = w.m.make(refdom::TEXT, prd, u"#text", text); } else { x = pxd->createComment((const XMLCh*)text.c_str()); r = w.m.make(refdom::COMMENT, prd, u"#comment", text); }
+            px->appendChild(x); w.m.insertAt(pr, r, pr->kids.size()); w.add(r, x); mutated++; return ""; }
         if (k == "createEntityReference") { if (!refdom::validName(name)) v.add(refdom::INVALID_CHARACTER_ERR); DOMNode* x = nullptr; TRY(x = xd->createEntityReference((const XMLCh*)name.c_str())); std::string e = outcome("createEntityReference"); if (!e.empty() || !v.ok()) return e; Node* r = w.m.make(refdom::ENTITY_REFERENCE, rd, name); r->readOnly = true; w.add(r, x); return ""; }
         if (k == "setUserData") { if (!A) return ""; int key = n & 1; long val = (op.geti("c") % 6 == 5) ? 0 : 1 + (long)(op.geti("c") % 5); static const XMLCh k0[] = { 'k', '0', 0 }, k1[] = { 'k', '1', 0 }; void* prev = nullptr;
             TRY(prev = A->x->setUserData(key ? k1 : k0, (void*)val, nullptr)); std::string e = outcome("setUserData"); if (!e.empty()) return e;
@@ -249,10 +276,16 @@ private:
             Node* displaced = nullptr; if (v.ok() && r->type == refdom::ATTRIBUTE && r->ownerElement) { Node* byName = nullptr; Node* byNs = nullptr; for (auto a : r->ownerElement->attrs) { if (a == r) continue; if (a->name == q) byName = a; size_t ac = a->name.find(u':'); std::u16string al = ac == std::u16string::npos ? a->name : a->name.substr(ac + 1); if (a->ns == ns && al == local) byNs = a; } if (byName != byNs) return ""; displaced = byName; }
             DOMNode* x = nullptr; TRY(x = xd->renameNode(A->x, ns.empty() ? nullptr : (const XMLCh*)ns.c_str(), (const XMLCh*)q.c_str())); std::string e = outcome("renameNode"); if (!e.empty() || !v.ok()) return e;
             if (!x) return "dom:rename-null|renameNode returned null";
-            if (x != A->x) { size_t idx = w.byX[A->x]; w.byX.erase(A->x); w.slots[idx].x = x; w.byX[x] = idx; g_run.probe("rename_created_new_node"); }
+            if (x != A->x) {      // "if simply changing the name is not possible a new node is created": the old node is removed from its parent, children, attributes and user data move to the new node, which takes the old node's place; the old node stays alive, detached and empty
+                g_run.probe("rename_created_new_node"); Node* nr = w.m.make(r->type, r->doc, q); nr->ns = ns; nr->hasNs = !ns.empty(); nr->ud[0] = r->ud[0]; nr->ud[1] = r->ud[1]; r->ud[0] = r->ud[1] = 0;
+                if (r->type == refdom::ELEMENT) { Node* parent = r->parent; Node* nextSib = r->next(); w.m.removeNode(r); while (!r->kids.empty()) { Node* c = r->kids[0]; w.m.removeNode(c); w.m.insertAt(nr, c, nr->kids.size()); } if (parent) w.m.insertAt(parent, nr, nextSib ? (size_t)nextSib->indexInParent() : parent->kids.size()); nr->attrs = r->attrs; r->attrs.clear(); for (auto a : nr->attrs) a->ownerElement = nr; }
+                else { Node* oe = r->ownerElement; nr->value = r->value; r->value.clear(); if (oe) { auto& av = oe->attrs; av.erase(std::find(av.begin(), av.end(), r)); r->ownerElement = nullptr; if (displaced) { av.erase(std::find(av.begin(), av.end(), displaced)); displaced->ownerElement = nullptr; g_run.probe("rename_displaced_attribute"); } av.push_back(nr); nr->ownerElement = oe; } }
+                if (nr->type == refdom::ATTRIBUTE) nr->idAttr = ((DOMAttr*)x)->isId();
+                w.add(nr, x); mutated++; return ""; }
+            if (r->type == refdom::ATTRIBUTE) r->idAttr = ((DOMAttr*)x)->isId();      // whether a renamed attribute is still an ID attribute is not specified: adopt the answer
             r->name = q; r->ns = ns; r->hasNs = !ns.empty(); if (displaced) { auto& av = r->ownerElement->attrs; av.erase(std::find(av.begin(), av.end(), displaced)); displaced->ownerElement = nullptr; g_run.probe("rename_displaced_attribute"); }
             mutated++; return ""; }
-        if (k == "release") { if (!A) return ""; Node* r = A->r; if (r->type == refdom::DOCUMENT || r->parent || r->ownerElement) return "";      // only detached subtrees are released in this harness (release of attached nodes is INVALID_ACCESS, not modelled)
+        if (k == "release") { if (!A) return ""; Node* r = A->r; if (r->type == refdom::DOCUMENT || r->parent || r->ownerElement) return ""; if (views && views->referenced(r)) return "";      // (a node that a live view still refers to is not released) only detached subtrees are released in this harness (release of attached nodes is INVALID_ACCESS, not modelled)
             TRY(A->x->release()); std::string e = outcome("release"); if (!e.empty()) return e; w.kill(r); return ""; }
 #undef TRY
         return "";
@@ -261,5 +294,5 @@ private:
 };
 
 int main(int argc, char** argv) {
-    return driverMain(argc, argv, [](const std::string& p) -> Engine* { if (p == "C13") return new DomEngine(p); return nullptr; });
+    return driverMain(argc, argv, [](const std::string& p) -> Engine* { if (p == "C13" || p == "C14") return new DomEngine(p); return nullptr; });
 }
